@@ -187,7 +187,7 @@ theorem sendPacket_err (s : Core) (p : Packet) (e : Err) (h : (sendPacket H s p)
 /-- all checks `RecvPacket` performs before its first write -/
 def RecvOk (s : Core) (p : Packet) (π : Proof) (h : Nat) : Prop :=
   validatePacket s p = .ok ∧ s.ps.receipt p.key = false ∧
-  ∃ cl sn, s.clients (recvProver s p) = some cl ∧ h ≤ cl.latest ∧ cl.cons h = some sn ∧
+  ∃ cl sn, s.clients (recvProver s p) = some cl ∧ cl.active s.now = true ∧ h ≤ cl.latest ∧ cl.cons h = some sn ∧
     π = Proof.honest (recvProver s p) h (.commit p.key) ∧
     sn.commit p.key = some (H p.data)
 
@@ -204,7 +204,7 @@ theorem validatePacket_err (s : Core) (p : Packet) (e : Err) (h : validatePacket
 
 theorem recvPacket_cases (s : Core) (p : Packet) (π : Proof) (h : Nat) :
     (RecvOk H s p π h ∧ recvPacket H s p π h = recvWrites H s p) ∨
-    (¬ RecvOk H s p π h ∧ ∃ e, (e = .invalidPacket ∨ e = .clientNotFound ∨ e = .verify) ∧
+    (¬ RecvOk H s p π h ∧ ∃ e, (e = .invalidPacket ∨ e = .clientNotFound ∨ e = .clientNotActive ∨ e = .verify) ∧
         recvPacket H s p π h = (s, .err e)) := by
   unfold recvPacket RecvOk
   cases hv : validatePacket s p with
@@ -216,23 +216,30 @@ theorem recvPacket_cases (s : Core) (p : Packet) (π : Proof) (h : Nat) :
       cases hcl : s.clients (recvProver s p) with
       | none => right; exact ⟨by simp, .clientNotFound, Or.inr (Or.inl rfl), by simp⟩
       | some cl =>
+        cases hact : cl.active s.now with
+        | false =>
+          right
+          refine ⟨?_, .clientNotActive, Or.inr (Or.inr (Or.inl rfl)), by simp [hact]⟩
+          rintro ⟨_, _, cl', sn, hcl', ha, _⟩
+          cases hcl'; rw [hact] at ha; cases ha
+        | true =>
         cases hver : verify cl (recvProver s p) h π (.commit p.key) (.digest (H p.data)) with
         | false =>
           right
-          refine ⟨?_, .verify, Or.inr (Or.inr rfl), ?_⟩
-          · rintro ⟨_, _, cl', sn, hcl', hle, hsn, hπ, hc⟩
+          refine ⟨?_, .verify, Or.inr (Or.inr (Or.inr rfl)), ?_⟩
+          · rintro ⟨_, _, cl', sn, hcl', _, hle, hsn, hπ, hc⟩
             have : verify cl (recvProver s p) h π (.commit p.key) (.digest (H p.data)) = true := by
               rw [verify_iff]
               cases hcl'
               exact ⟨hle, sn, hsn, hπ, by simp [Snapshot.holds, hc]⟩
             rw [hver] at this; cases this
-          · simp [hver]
+          · simp [hver, hact]
         | true =>
           left
           have hver' := hver
           rw [verify_iff] at hver
           obtain ⟨hle, sn, hsn, hπ, hholds⟩ := hver
-          refine ⟨⟨rfl, rfl, cl, sn, rfl, hle, hsn, hπ, ?_⟩, by simp [hver']⟩
+          refine ⟨⟨rfl, rfl, cl, sn, rfl, hact, hle, hsn, hπ, ?_⟩, by simp [hver', hact]⟩
           simpa [Snapshot.holds] using hholds
 
 /-! ### `WriteAcknowledgement` -/
@@ -265,7 +272,7 @@ theorem writeAck_cases (s : Core) (p : Packet) (ack : Data) :
 
 def AckOk (s : Core) (p : Packet) (ack : Data) (π : Proof) (h : Nat) : Prop :=
   validatePacket s p = .ok ∧ s.ps.commit p.key = some (H p.data) ∧
-  ∃ cl sn, s.clients (ackProver s p) = some cl ∧ h ≤ cl.latest ∧ cl.cons h = some sn ∧
+  ∃ cl sn, s.clients (ackProver s p) = some cl ∧ cl.active s.now = true ∧ h ≤ cl.latest ∧ cl.cons h = some sn ∧
     π = Proof.honest (ackProver s p) h (.ack p.key) ∧
     sn.ack p.key = some (H ack)
 
@@ -280,23 +287,30 @@ theorem acknowledgePacket_cases (s : Core) (p : Packet) (ack : Data) (π : Proof
     · cases hcl : s.clients (ackProver s p) with
       | none => right; simp [hc]
       | some cl =>
+        cases hact : cl.active s.now with
+        | false =>
+          right
+          refine ⟨?_, by simp [hc, hact]⟩
+          rintro ⟨_, _, cl', sn, hcl', ha, _⟩
+          cases hcl'; rw [hact] at ha; cases ha
+        | true =>
         cases hver : verify cl (ackProver s p) h π (.ack p.key) (.digest (H ack)) with
         | false =>
           right
           refine ⟨?_, ?_⟩
-          · rintro ⟨_, _, cl', sn, hcl', hle, hsn, hπ, hc'⟩
+          · rintro ⟨_, _, cl', sn, hcl', _, hle, hsn, hπ, hc'⟩
             have : verify cl (ackProver s p) h π (.ack p.key) (.digest (H ack)) = true := by
               rw [verify_iff]
               cases hcl'
               exact ⟨hle, sn, hsn, hπ, by simp [Snapshot.holds, hc']⟩
             rw [hver] at this; cases this
-          · simp [hc, hver]
+          · simp [hc, hver, hact]
         | true =>
           left
           have hver' := hver
           rw [verify_iff] at hver
           obtain ⟨hle, sn, hsn, hπ, hholds⟩ := hver
-          refine ⟨⟨rfl, hc, cl, sn, rfl, hle, hsn, hπ, ?_⟩, by simp [hc, hver']⟩
+          refine ⟨⟨rfl, hc, cl, sn, rfl, hact, hle, hsn, hπ, ?_⟩, by simp [hc, hver', hact]⟩
           simpa [Snapshot.holds] using hholds
     · right; simp [hc]
 
@@ -304,7 +318,7 @@ theorem acknowledgePacket_cases (s : Core) (p : Packet) (ack : Data) (π : Proof
 
 def RecvCleanOk (s : Core) (cp : CleanPacket) (π : Proof) (h : Nat) : Prop :=
   validateClean s cp = .ok ∧
-  ∃ cl sn, s.clients (cleanProver s cp) = some cl ∧ h ≤ cl.latest ∧ cl.cons h = some sn ∧
+  ∃ cl sn, s.clients (cleanProver s cp) = some cl ∧ cl.active s.now = true ∧ h ≤ cl.latest ∧ cl.cons h = some sn ∧
     π = Proof.honest (cleanProver s cp) h (.clean cp.pair) ∧
     cp.seq ≠ 0 ∧ sn.clean cp.pair = cp.seq
 
@@ -318,24 +332,31 @@ theorem recvCleanPacket_cases (s : Core) (cp : CleanPacket) (π : Proof) (h : Na
     cases hcl : s.clients (cleanProver s cp) with
     | none => right; simp
     | some cl =>
+      cases hact : cl.active s.now with
+      | false =>
+        right
+        refine ⟨?_, by simp [hact]⟩
+        rintro ⟨_, cl', sn, hcl', ha, _⟩
+        cases hcl'; rw [hact] at ha; cases ha
+      | true =>
       cases hver : verify cl (cleanProver s cp) h π (.clean cp.pair) (.seq cp.seq) with
       | false =>
         right
         refine ⟨?_, ?_⟩
-        · rintro ⟨_, cl', sn, hcl', hle, hsn, hπ, hn, hc'⟩
+        · rintro ⟨_, cl', sn, hcl', _, hle, hsn, hπ, hn, hc'⟩
           have : verify cl (cleanProver s cp) h π (.clean cp.pair) (.seq cp.seq) = true := by
             rw [verify_iff]
             cases hcl'
             exact ⟨hle, sn, hsn, hπ, by simp [Snapshot.holds, hc', hn]⟩
           rw [hver] at this; cases this
-        · simp [hver]
+        · simp [hver, hact]
       | true =>
         left
         have hver' := hver
         rw [verify_iff] at hver
         obtain ⟨hle, sn, hsn, hπ, hholds⟩ := hver
         simp [Snapshot.holds] at hholds
-        exact ⟨⟨rfl, cl, sn, rfl, hle, hsn, hπ, hholds.1, hholds.2⟩, by simp [hver']⟩
+        exact ⟨⟨rfl, cl, sn, rfl, hact, hle, hsn, hπ, hholds.1, hholds.2⟩, by simp [hver', hact]⟩
 
 end Core
 end Tibc
